@@ -3,7 +3,7 @@ Model of `get_variables` (telingo/transformers/head.py): the variables of a head
 keyed by name and returned in the order of the names — the arguments of the auxiliary atom `__aux_i(vars, t)` that stands
 for the head formula in the rewritten rule.
 -/
-import TelModel.TermConv
+import TelModel.HTerm
 
 namespace TelModel
 
